@@ -136,6 +136,15 @@ Fixpoint to_ginline (i : inline) : inline :=
   end.
 Definition to_ginlines (dir : string) (l : list inline) : list inline := map to_ginline l.
 
+(* sections_builder.rs:258-266 starts_with_header (never asked about an empty range; Div, which the
+   reader never produces, is not in the model) *)
+Definition starts_with_header (bs : list dblock) : bool :=
+  match bs with
+  | (DPara _ _ | DHeader _ _ _) :: _ => true
+  | [DBList _] | [DOList _] => true
+  | _ => false
+  end.
+
 Section Sections.
   Variable dir : string.  (* key.parent() *)
 
@@ -173,6 +182,10 @@ Section Sections.
         end
     end
 
+  (* sections_builder.rs:79-100: the first block is the header of the section (a heading, the text
+     of a list item, or the list an item consists of, which section_block merges into the enclosing
+     list); an item that starts with anything else becomes a section without text over ALL its
+     blocks *)
   with process_section (fuel : nat) (bs : list dblock) (st : bst) {struct fuel} : res bst :=
     match fuel with
     | O => Panic "out of fuel"
@@ -180,10 +193,16 @@ Section Sections.
         match bs with
         | [] => Ok st
         | h :: body =>
-            do st <- section_block f h st;
-            let id := b_cur st in
-            do st <- process_blocks f body st;
-            Ok (set_id st id)
+            if starts_with_header bs then
+              do st <- section_block f h st;
+              let id := b_cur st in
+              do st <- process_blocks f body st;
+              Ok (set_id st id)
+            else
+              do st <- add_node st (KSection []);
+              let id := b_cur st in
+              do st <- process_blocks f bs st;
+              Ok (set_id st id)
         end
     end
 
@@ -196,7 +215,7 @@ Section Sections.
         | DHeader lr _ l => do st <- add_node st (KSection (to_ginlines dir l)); Ok (set_lines_range st lr)
         | DBList items | DOList items =>
             fold_left (fun acc it => do s <- acc; process_section f it s) items (Ok st)
-        | _ => Panic "section block panic"
+        | _ => Panic "section block panic"   (* not reachable from process_section any more *)
         end
     end
 
